@@ -5,7 +5,7 @@ import random
 import re
 import shutil
 import tempfile
-from specs.C08_oracle import _root, _cli, spec_label
+from specs.C08_oracle import _root, _cli, spec_label, ensure_gz
 
 
 def _sig(path, ks):
@@ -25,8 +25,8 @@ def run_case(case):
 		rnd = random.Random(case['seed'])
 		nr, nc = case['nr'], case['nc']
 		dmat = np.array([[rnd.choice([0.0, 1.0, rnd.random(), 0.00005, 0.99995]) for _ in range(nc)] for _ in range(nr)], dtype=np.float32).reshape(nr, nc)
-		rows = [rnd.choice(['a', 'b,c', 'q"x', 'é', 'r%d' % i]) for i in range(nr + case.get('extra_rows', 0))]
-		cols = ['c%d' % j for j in range(nc)]
+		rows = [rnd.choice(['a', 'b,c', 'q"x', 'é', 'r%d' % i, 'a_very_long_assembler_style_sample_name_%d.contigs' % i, 'x' * 70]) for i in range(nr + case.get('extra_rows', 0))]
+		cols = [rnd.choice(['c%d' % j, 'c', 'column_with_a_rather_long_label_%d' % j]) for j in range(nc)]
 		buf = io.StringIO(newline='')
 		try:
 			dump_dmat_csv(buf, dmat, rows, cols)
@@ -43,7 +43,7 @@ def run_case(case):
 		gdir = os.path.join(root, 'queries', 'genomes')
 		rdir = os.path.join(root, 'ref-genomes')
 		ks = KmerSpec(6, 'AT')
-		qpaths = [os.path.join(gdir, g + ('.fasta.gz' if z else '.fasta')) for g, z in zip(case['q'], case.get('qgz', [False] * len(case['q'])))]
+		qpaths = [ensure_gz(os.path.join(gdir, g + ('.fasta.gz' if z else '.fasta')), tmp) for g, z in zip(case['q'], case.get('qgz', [False] * len(case['q'])))]
 		if case.get('empties'):
 			# files whose sequences hold no occurrence of the prefix: their signatures are empty
 			edir = os.path.join(tmp, 'empty')
